@@ -34,6 +34,8 @@ def gen_world(rng, k):
         parts = [dict(k='typedef_struct', name=name, tag=tag, **at()), dict(k='struct', tag=tag, fields=fields, **at())]
         if rng.random() < 0.5:       # forward declaration, somewhere else
             parts.append(dict(k='struct', tag=tag, fields=[], **at()))
+        if rng.random() < 0.4 and fields:       # a second typedef of the same tag (GObject / GInitiallyUnowned)
+            parts.append(dict(k='typedef_struct', name=name + 'Alt', tag=tag, **at()))
         rng.shuffle(parts)
         decls += parts
         for m in rng.sample(FNAMES, rng.randint(0, 3)):
@@ -81,7 +83,12 @@ def gen_world(rng, k):
         blocks.append(dict(text='/**\n * SECTION:sec%s%d\n * @short_description: s\n *\n * Section text %d.\n */' % (rng.choice(['Z', 'a']), i, i),
                            file='/src/foo-b.c', line=bl))
         bl += 20
-    return dict(decls=decls, blocks=blocks, dump=dump, includes=['GLib', 'GObject'])
+    # values of other namespaces, one of them reached only through the include of an include
+    decls.append(dict(k='func', name='foo_use_base', ret='void', params=[['thing', 'BaseThing*'], ['box', 'MidBox*'], ['mode', 'BaseMode']], **at()))
+    libs = rng.sample(['libfoo-core.so.0', 'libfoo-ui.so.1', 'libfoo-extra.so.0', 'libz.so.1', 'libA.so'], rng.randint(0, 4))
+    return dict(decls=decls, blocks=blocks, dump=dump, includes=['GLib', 'GObject', 'Mid'], libraries=libs,
+                c_includes=rng.sample(['foo.h', 'foo-a.h', 'Foo-d.h', 'sub/foo-c.h'], rng.randint(0, 3)),
+                packages=rng.sample(['foo-1.0', 'glib-2.0', 'gobject-2.0', 'Zlib'], rng.randint(0, 3)))
 
 
 def run_variant(world, hashseed=0, cache=None):
@@ -106,9 +113,19 @@ def swap_decl_order(world, rng):
     for tag in tags:
         idx = [i for i, d in enumerate(decls) if d.get('tag') == tag]
         group = [decls[i] for i in idx]
-        group.reverse()
-        if len(group) > 2 and rng.random() < 0.5:
-            rng.shuffle(group)
+        # the relative order of the typedefs of one tag is kept (the first one names the record); the structure
+        # definition and forward declarations move between, before and after them
+        tds = [d for d in group if d['k'] == 'typedef_struct']
+        sts = [d for d in group if d['k'] == 'struct']
+        slots = sorted(rng.sample(range(len(group)), len(tds))) if rng.random() < 0.7 else list(range(len(sts), len(group)))
+        rng.shuffle(sts)
+        newg, ti, si = [], 0, 0
+        for j in range(len(group)):
+            if j in slots:
+                newg.append(tds[ti]); ti += 1
+            else:
+                newg.append(sts[si]); si += 1
+        group = newg
         for i, d in zip(idx, group):
             decls[i] = d
     return w
